@@ -39,7 +39,7 @@ ASSUMPTIONS = [
 TRUSTED = ["CPython argument binding (modelled by `bind`, compared against real calls by op call.bind)",
            "stdlib argparse action constructor signatures (table `stockCtorArgs`, compared by op call.keep)"]
 EXHAUSTIVE = {"quick": False, "thorough": False}
-THOROUGH_ROUNDS = 8   # thorough tier: this many generator passes with derived PRNG states (vcheck)
+THOROUGH_ROUNDS = 5   # thorough tier: this many generator passes with derived PRNG states (vcheck)
 
 # ------------------------------------------------------------------------------------------------
 # type table: annotation source -> class for the model, default literals, argv tokens for one value
